@@ -197,6 +197,16 @@ def spectra_of(it):
         return gen.bumps(nf, nd, it["k"], it["heights"], base=it.get("base", 0.0))
     if it["fam"] == "structured":
         return gen.structured(nf, nd, it["alpha"], kmax=2)
+    if it["fam"] == "lattice":
+        # a peak on every other cell in both directions (nf*nd/4 regional maxima, all of different height) over a flat floor; a second
+        # spectrum with the lattice shifted by one cell
+        k = np.arange((nf // 2) * (nd // 2), dtype=float).reshape(nf // 2, nd // 2)
+        out = []
+        for o in (0, 1):
+            S = np.full((nf, nd), 1.0)
+            S[o::2, o::2][:k.shape[0], :k.shape[1]] = 10.0 + 0.01 * ((k * 7) % k.size)[:S[o::2, o::2].shape[0], :S[o::2, o::2].shape[1]]
+            out.append(S)
+        return np.array(out)
     raise ValueError
 
 
@@ -420,6 +430,13 @@ def run(rep, tier, seed, parts=None):
                           methods=["ptm1", "ptm2", "ptm3"], seed=seed, fdesc=True))
         items.append(dict(name="4x6-bumps3-descending-freq", fam="bumps", nf=4, nd=6, k=3, heights=[3.0, 1.0, 0.6] if a3[2] <= 0 else [a3[2], a3[1] if a3[1] > 0 else 0.5, 0.6 * (a3[1] if a3[1] > 0 else 0.5)],
                           cfgs=cfg3() + cfgw(WIND_SMALL[:4], (1, 2), (100,)), methods=["ptm1", "ptm2", "ptm3"], seed=seed, fdesc=True, slice=(0, 1500), rotate=True, per=2))
+        # many basins: more regional maxima than an 8-bit label can count (144, 289 and 324 on 24x24, 34x34, 36x36)
+        for n in (24, 34, 36):
+            nb = (n // 2) ** 2
+            items.append(dict(name="lattice-%dx%d-%d-basins" % (n, n, nb), fam="lattice", nf=n, nd=n,
+                              cfgs=[dict(ihmax=100, count=nb + 3), dict(ihmax=100, count=nb - 20)]
+                              + [dict(ihmax=100, count=c, wspd=w, wdir=40.0, dpt=50.0, agefac=1.7, wscut=0.3333, skip3=True) for c in (nb + 3, nb - 20) for w in (0.0, 20.0)],
+                              methods=["ptm1", "ptm2", "ptm3"], seed=seed))
         # bigger products with rotating configurations
         big = [(2, 5), (1, 8)] + ([(3, 4), (2, 6)] if tier == "thorough" else [])
         allc = cfg3() + cfgw(WIND_SMALL, (1, 2, 3), (5, 100))
